@@ -21,4 +21,5 @@ var Registry = map[string]func() *vlib.Plan{
 	"C16": C16Plan,
 	"C18": C18Plan,
 	"C19": C19Plan,
+	"C20": C20Plan,
 }
